@@ -800,11 +800,15 @@ def run_c09(ctx) -> Corr:
                 "being released when the link dropped / the context was entered again")
     rng = lib.rng_for(ctx.seed, "c09")
     cases: list[Case] = []
+    overlap_replay = None
     if getattr(ctx, "replay", None):
         try:
             with open(ctx.replay, encoding="utf-8") as f:
                 rj = json.load(f)
-            if "case" in rj and "schedule" in rj["case"]:
+            if "case" in rj and rj["case"].get("overlap"):
+                overlap_replay = {k: rj["case"][k] for k in ("overlap", "version", "parked", "calls", "schedule")}
+                overlap_replay["other_lines"] = rj["case"].get("other_lines", [])
+            elif "case" in rj and "schedule" in rj["case"]:
                 cases.append(Case.from_json(rj["case"], "replay"))
         except (OSError, ValueError, KeyError):
             corr.notes.append("replay file not readable as a C09 case; ignored")
@@ -940,6 +944,9 @@ def run_c09(ctx) -> Corr:
         compare.append(mobs)
         spans.append((len(ops), len(lines)))
         ops.extend(lines)
+    # further lines reach the listener WHILE a write of a flush waits (oracle only; see flushoverlap)
+    from . import flushoverlap  # noqa: PLC0415
+    flushoverlap.run_overlap(corr, ctx, overlap_replay)
     corr.exhaustive = True
     corr.notes.append(f"{n_quick} corpus + exhaustively enumerated schedules, {len(cases) - n_quick} more enumerated in "
                       f"thorough, {len(random_cases)} random schedules; scope: buffered sends to the sleeping woken "
